@@ -223,12 +223,25 @@ def correspondence(outdir):
     size = stats["shard_size"]
     results = {}
     errors = []
+    retry = []
     with cf.ThreadPoolExecutor(max_workers=int(os.environ.get("VERIF_JOBS", "16"))) as ex:
         for path, verdicts, err in ex.map(eval_shard, shards):
+            if err is not None and (err.strip() == "" or err == "coqc timeout" or "Out of memory" in err or "Killed" in err):
+                # coqc ended without saying anything (killed by the kernel under memory pressure,
+                # 16 evaluations at once) or ran out of time: evaluate this shard again, alone
+                retry.append(path)
+                continue
             if err is not None:
                 errors.append((path, err))
                 verdicts = None
             results[path] = verdicts
+    for path in retry:
+        log("re-evaluating %s alone" % os.path.basename(path))
+        path, verdicts, err = eval_shard(path)
+        if err is not None:
+            errors.append((path, err if err.strip() else "coqc was killed twice without output (out of memory?)"))
+            verdicts = None
+        results[path] = verdicts
     letters = []
     for i, path in enumerate(shards):
         v = results[path]
